@@ -202,7 +202,7 @@ func TestChecksum(t *testing.T) {
 			m := ipmi.Message{
 				Operation:     ipmi.Operation{Function: ipmi.NetworkFunction(nl >> 2), Command: ipmi.CommandNumber(a ^ nl)},
 				RemoteAddress: ipmi.Address(a), RemoteLUN: ipmi.LUN(nl & 3),
-				LocalAddress:  ipmi.Address(nl), LocalLUN: ipmi.LUN(a & 3), Sequence: uint8(a & 0x3f),
+				LocalAddress: ipmi.Address(nl), LocalLUN: ipmi.LUN(a & 3), Sequence: uint8(a & 0x3f),
 				CompletionCode: ipmi.CompletionCode(a + nl),
 			}
 			body := make([]byte, (a+nl)%7)
@@ -230,7 +230,7 @@ func TestChecksum(t *testing.T) {
 	// the decoder accepts exactly one of the 256 values of each checksum
 	domd := ev.Domain("checksum-decoder-acceptance", 2*256*16)
 	for k := 0; k < 16; k++ {
-		msg := (&ref.Msg{RsAddr: byte(0x81 + k), NetFn: byte(7 + 2*k) & 0x3f | 1, RqAddr: 0x20, RqSeq: byte(k), Cmd: byte(k * 9), CC: byte(k), Data: []byte{byte(k), byte(k * 3), 0xff}[:k%4]}).Bytes()
+		msg := (&ref.Msg{RsAddr: byte(0x81 + k), NetFn: byte(7+2*k)&0x3f | 1, RqAddr: 0x20, RqSeq: byte(k), Cmd: byte(k * 9), CC: byte(k), Data: []byte{byte(k), byte(k * 3), 0xff}[:k%4]}).Bytes()
 		if (msg[1]>>2) == 0x2d || (msg[1]>>2) == 0x2f {
 			msg = (&ref.Msg{RsAddr: 0x81, NetFn: 7, RqAddr: 0x20, Cmd: byte(k), Data: []byte{1, 2, 3}}).Bytes()
 		}
